@@ -21,7 +21,7 @@ Oracle: CPython's own `range` applied to the case data (not to the generated tex
 
 Finding of this check on the unchanged tree (`C18_EXCLUDE=none` re-opens it): bucket
 `range.overflow_wrap` - see PROBES and the final report.  Input class: the range is observed to its
-end (len <= 40 here), len >= 1 and `start + len*step` is not an int64, i.e. the `next + step` that
+end (len <= 41 here), len >= 1 and `start + len*step` is not an int64, i.e. the `next + step` that
 `Range.__next__` computes eagerly when it yields the last element wraps around, lands on the
 other side of `stop`, and the end test never fires.  Every member of the class fails (the wrapped
 value is `last + step -+ 2^64`, which is always on the "not yet finished" side of `stop`), so the
@@ -520,7 +520,7 @@ def worker(ctx):
             if overflow_class(c):
                 ctx.label("overflow class drawn")
                 if "range.overflow_wrap" in EXCLUDE:
-                    ctx.exclude("range.overflow_wrap: len<=40, start+len*step not an int64")
+                    ctx.exclude("range.overflow_wrap: end observed (1<=len<=41), start+len*step not an int64")
                     continue
             keep.append(c)
         if all(rlen(py_range(c)) == 0 for c in keep):
@@ -583,8 +583,8 @@ SPEC = harness.Spec(
                  "input class range.overflow_wrap (observed to its end, len>=1, start+len*step outside int64) is excluded "
                  "by construction while listed in EXCLUDE; its fixed probe is reported in notes"],
     shards={"quick": 16, "thorough": 16},
-    budget_s={"quick": 120, "thorough": 900},
-    params={"quick": {"n": 6}, "thorough": {"n": 120}},
+    budget_s={"quick": 150, "thorough": 1200},
+    params={"quick": {"n": 8}, "thorough": {"n": 120}},
     min_nontrivial=200,
 )
 
